@@ -3914,9 +3914,12 @@ impl<'a> Parser<'a> {
     }
 
     fn parse_intersection_type(&mut self) -> Result<TypeAnnotation, JsError> {
+        // Like `|`, a leading `&` is allowed: type T = & A & B
+        let has_leading_amp = self.match_token(&TokenKind::Amp);
+
         let first = self.parse_primary_type()?;
 
-        if !self.check(&TokenKind::Amp) {
+        if !has_leading_amp && !self.check(&TokenKind::Amp) {
             return Ok(first);
         }
 
